@@ -854,25 +854,45 @@ class G:
 # ------------------------------------------------------------------------------------------------
 # input records
 
-def gen_records(rng, n=None, hetero=None):
-    """List of ordered dicts: a, b strings; i, x, y ints; some fields missing / extra (heterogeneous)."""
+WIDE_FIELDS = ["w%d" % i for i in range(10)]
+
+
+def gen_records(rng, n=None, hetero=None, wide=None):
+    """List of ordered dicts: a, b strings; i, x, y ints; some fields missing / extra (heterogeneous).
+    wide: 5-10 more fields w0.. per record, so that the records have 10-16 fields and a program that adds or removes a
+    few crosses 11 -> 12 -> 13 (maps keep a key index from 12 entries on; it has to stay in step with the entry list
+    under every kind of assignment, positional rename, unset and whole-record replacement)."""
     if n is None:
         n = rng.choice([0, 1, 2, 3, 4, 5, 6, 8, 12])
     if hetero is None:
         hetero = rng.random() < 0.35
+    if wide is None:
+        wide = rng.random() < 0.2
+    nwide = rng.choice([5, 6, 6, 7, 7, 8, 10]) if wide else 0
+    wide_first = wide and rng.random() < 0.25
     recs = []
     for k in range(n):
         r = {}
+        if wide_first:
+            for w in WIDE_FIELDS[:nwide]:
+                r[w] = rng.choice([rng.randint(0, 50), rng.choice(KEY_POOL)])
         r["a"] = rng.choice(KEY_POOL[:3])
         if not hetero or rng.random() > 0.15:
             r["b"] = rng.choice(KEY_POOL[:4])
+            if hetero and rng.random() < 0.12:
+                r["b"] = ""                         # an empty value that comes from the data, not from a literal
         r["i"] = k + 1
         if not hetero or rng.random() > 0.15:
             r["x"] = rng.randint(-20, 100)
+            if hetero and rng.random() < 0.12:
+                r["x"] = rng.randint(-20, 100) + rng.choice([0.25, 0.5, 0.75])      # a float from the data (exact in binary)
         if not hetero or rng.random() > 0.3:
             r["y"] = rng.randint(0, 9)
         if hetero and rng.random() < 0.2:
             r["z"] = rng.choice(["u", 3, "v w"])
+        if wide and not wide_first:
+            for w in WIDE_FIELDS[:nwide - (1 if hetero and rng.random() < 0.3 else 0)]:
+                r[w] = rng.choice([rng.randint(0, 50), rng.choice(KEY_POOL)])
         if rng.random() < 0.15:
             keys = list(r.keys())
             rng.shuffle(keys)
